@@ -8,6 +8,41 @@ var realTerminal = []string{"gmrtd iso7816.NfcSession", "gmrtd iso7816.SecureMes
 
 func RegisterAll() {
 	core.Register(&core.Check{
+		Property: "C02",
+		Level:    "exploration",
+		Rule: "(a) end-to-end reads against adversarial chips, live and then offline (serialise, store, verify): clone without private keys; clone with substituted AA / CA keys (DG15/DG14 rewritten, SOD untouched or re-signed by an untrusted DS); chip withholding DG14 / DG15 still listed in the SOD; EF.CardAccess with an added or downgraded PACE info not contained in DG14; PACE-CAM with a CardSecurity signed by an untrusted DS or carrying a substituted key; each crossed with trusted / untrusted issuer and the access-control / curve / suite matrix; a genuine control; " +
+			"(b) the gating invariant is evaluated on the DocumentEx of every run and swept exhaustively over all 324 combinations of step outcomes (PA absent/failed/ok x CardSec x AA x PACE-CAM x CA x completeness); distinct_nontrivial counts distinct (hostile kind, access arrangement, issuer trust, CA/AA arrangement, live+offline verdict) tuples plus sweep combinations",
+		Engines:        []core.Engine{SweepEngine{}, HostileEngine{}},
+		Assumptions:    []string{"by construction a clone cannot know the genuine private keys; substituted keys change a hashed file"},
+		RealComponents: []string{"gmrtd reader, verifier, document.Session/DocumentEx.Summary, Document.Verify, passiveauth and all protocol packages"},
+		SimComponents:  []string{"hostile SimChip personalisations", "SimPKI (trusted and untrusted issuers)", "simulated store for the offline leg"},
+		RequiredProbes: []string{"sweep_combination"},
+		QuickBudget:    90, ThoroughBudget: 1500,
+	})
+	core.Register(&core.Check{
+		Property: "C09",
+		Level:    "exploration",
+		Rule: "fault-free twin of C01: the simulated issuer walks the issuing-profile matrix (CSCA key x DS key from {RSA 1024..4096, 11 curves named/explicit} stratified by run index, RSA PKCS#1/PSS, digests SHA-1..SHA-512 for certificates, signed attributes and DG hashes, SID issuerAndSerial/SKI, LDS SO v0/v1, signing time present/absent and at the DS / CSCA window edges, NULL-less digest AlgorithmIdentifiers, BER indefinite lengths, extra embedded certificates, re-ordered / UTF8 issuer names in the SID, decoy anchors incl. a same-country anchor with the same key identifier listed first, CardSecurity); verdict through the real PassiveAuth on a Document built with the public constructors; " +
+			"distinct_nontrivial counts distinct profile tuples",
+		Engines:        []core.Engine{PKIProfileEngine{}},
+		Assumptions:    []string{"explicit EC parameters always carry the cofactor (ICAO Doc 9303-12 requirement)", "RSA keys come from a pre-generated public test key pool"},
+		RealComponents: []string{"gmrtd passiveauth, cms (parsing, chain building, signature verification), document constructors, tlv"},
+		SimComponents:  []string{"SimPKI issuer with calendar (own DER/X.509/CMS writers and RSA/PSS/ECDSA signers)", "trust-store operator"},
+		RequiredProbes: []string{"indefinite_length_retry_path", "second_anchor_candidate_used"},
+		QuickBudget:    90, ThoroughBudget: 1500,
+	})
+	core.Register(&core.Check{
+		Property: "C01",
+		Level:    "exploration",
+		Rule: "byzantine issuer / chip / trust-store operator and at-rest corruption: each run builds a genuine world (accepted first), applies exactly one fault of kinds A1..A10 (DG flip/replace/inject; hash list altered with and without messageDigest; re-signed by own chain / claiming the genuine CSCA / genuine DS with another key / attacker CSCA of another country / foreign DS; anchor removed, same-SKI other key, not CA, no keyCertSign, critical EKU, unknown critical extension; DS without keyUsage/digitalSignature/with unknown critical extension; signing time outside DS or CSCA window by 1 s..2 h; SOD country vs DG1; wrong contentType / messageDigest; the same on CardSecurity; master list tampered / wrong root / unchained signer; random byte substitution in SOD, CardSecurity and master list classified by the issuer's region map), stratified by fault kind x profile; " +
+			"distinct_nontrivial counts distinct (fault, detail, CSCA profile, DS profile, verdict) tuples",
+		Engines:        []core.Engine{PKIForgeryEngine{}, StoreVerifyEngine{}},
+		Assumptions:    []string{"by-construction verdicts: acceptance of a must-reject fault would need a hash collision or a signature forgery", "byte substitutions in signature values may be accepted iff the issuer's own verifier accepts the modified signature; substitutions in unauthenticated fields / length octets carry no demand", "arbitrary CMS blobs that are not mutations of genuine documents are not searched"},
+		RealComponents: []string{"gmrtd passiveauth, cms, document constructors, CreateCertPoolFromSignedData; verifier (offline path via the store engine)"},
+		SimComponents:  []string{"SimPKI byzantine issuer", "byzantine chip file store", "byzantine trust-store operator"},
+		QuickBudget:    100, ThoroughBudget: 1800,
+	})
+	core.Register(&core.Check{
 		Property: "C14",
 		Level:    "fault_enumeration",
 		Rule: "live simulated session (CA with every curve/suite/key-id arrangement incl. legacy KAT, PACE-CAM, AA RSA/ECDSA) -> DocumentEx.ToCbor -> simulated store -> verifier.Verify with the same trust store; then a byzantine store rewrites each evidence field in turn (bit flips first/middle/last, +1/-1 for scalars and the counter, another valid curve point, other OIDs / parameter ids, empty, one-byte and oversized values, dropped bundle) and each document file / authenticated SOD region, recomputing every envelope checksum with its own CBOR writer; " +
